@@ -54,7 +54,7 @@ def config_independence(ctx, w):
     if "w2" not in _ALT:
         try:
             f2 = FX.extract(repo=w.facts.repo, overflow_checks="off")
-            _ALT["w2"] = WD.World(f2)
+            _ALT["w2"] = canonical_world(f2)
         except FX.ExtractError as e:
             _ALT["w2"] = e
     w2 = _ALT["w2"]
@@ -66,6 +66,22 @@ def config_independence(ctx, w):
     diff = [p for p in w.E.summaries if p in w2.E.summaries and (w.E.summaries[p].W != w2.E.summaries[p].W or w.E.summaries[p].R != w2.E.summaries[p].R)]
     missing = sorted(set(w.E.summaries) ^ set(w2.E.summaries))
     ctx.check(not diff and not missing, "COMMON.config", "effects", "effect summaries differ between build configurations for %s %s" % (diff[:3], missing[:3]), sample={"functions": len(w.E.summaries)})
+
+
+def canonical_world(f):
+    """World over the facts, with the two structurally recognised private type names rewritten to their canonical
+    spelling when the source spells them differently (engine/canon.py)."""
+    import canon
+    w = WD.World(f)
+    try:
+        pr, vr = canon.renames(w)
+    except Exception:
+        return w
+    if not pr and not vr:
+        return w
+    f2 = FX.Facts(canon.apply(f.data, pr, vr), f.repo)
+    f2.canonical_renames = {"paths": pr, "variants": {"%s::%s" % k: v for k, v in vr.items()}}
+    return WD.World(f2)
 
 
 def run_property(prop, tier, w, seed):
@@ -122,7 +138,7 @@ def main(argv):
             ctx.violation("EXTRACT", "facts", "could not extract facts from /repo (does it build?): %s" % e)
             rc |= ctx.finish()
         return rc
-    w = WD.World(f)
+    w = canonical_world(f)
     if replay:
         r = json.load(open(replay))
         prop = r.get("property", prop)
